@@ -32,6 +32,7 @@ func init() {
 
 func runC18(c *eng.Ctx) {
 	p := c.P
+	addReplicaAppends(c)
 	watchResyncReachesTheListeners(c)
 	reportedStateIsTheLiveState(c)
 	everyEventIsQueued(c)
